@@ -407,7 +407,7 @@ var reviewedNonneg = map[string]string{
 	"(*core.Selection).Pop:slice#0":                 "guarded by `bpos == -1 || epos == -1 → return` two lines above; Selection.Pos returns values >= -1 (the named results are spilled because of the deferred Reset, which the domain does not follow)",
 	"(*core.Selection).SelectAShellWord:index#1":    "cpos comes from AdjustSurroundQuotes / SelectBlankWord (>= -1, and both -1 selects the blank word instead): cpos+1 >= 0",
 	"(*core.Selection).SelectKeyword:slice#0":       "bpos, epos are the blank-word positions the only caller (viSelectKeyword / selection cycling) obtained from SelectBlankWord on the same line (>= 0)",
-	"(*core.Selection).cycleSubgroup:index#0":       "kmpos >= 1 while cycling: matchKeyword sets it to 1 (or len(groups)) before any cycle, it is decremented only when > 1 (canCycleSubgroup)",
+	"(*core.Selection).cycleSubgroup:index#0":       "canCycleSubgroup: kmpos < len(groups)-1 before the increment (next), or 1 < kmpos <= len(groups) before the decrement (the upper test was added by fix 57f51af after this entry had been reviewed as safe without it): 1 <= kmpos <= len(groups)-1 at the index; the domain does not forward the store of kmpos to its reload",
 	"(*core.Selection).cycleSubgroup:index#1":       "same: kmpos >= 1",
 	"(*core.Selection).matchKeyword:index#2":        "kpos was wrapped into [1, len(matchersNames)] above and the loop runs while done(kpos): kpos > 0",
 	"(*readline.Shell).keywordSwitch:slice#1":       "bpos >= 0 from SelectWord, obpos is an offset inside the selected word returned by a keyword switcher (>= 0); the `cpos < bpos → continue` test above keeps bpos <= cpos",
@@ -453,7 +453,7 @@ var reviewedBounds = map[string]string{
 	"(*core.Selection).SelectAShellWord:index#0":         "mark > 0 is tested in the same expression; mark is a position on the line (cursor position or start of a selected word)",
 	"(*core.Selection).SelectAShellWord:index#1":         "cpos < Len()-1 is tested in the same expression",
 	"(*core.Selection).SelectKeyword:slice#0":            "bpos, epos are blank-word positions the callers obtained from SelectBlankWord on the same line (epos+1 <= Len)",
-	"(*core.Selection).cycleSubgroup:index#0":            "canCycleSubgroup: kmpos < len(groups)-1 before the increment (next) or kmpos > 1 before the decrement: 1 <= kmpos <= len(groups)-1",
+	"(*core.Selection).cycleSubgroup:index#0":            "canCycleSubgroup: kmpos < len(groups)-1 before the increment (next), or 1 < kmpos <= len(groups) before the decrement (the upper test was added by fix 57f51af after this entry had been reviewed as safe without it): 1 <= kmpos <= len(groups)-1 at the index; the domain does not forward the store of kmpos to its reload",
 	"(*core.Selection).cycleSubgroup:index#1":            "same",
 	"(*core.Selection).matchKeyword:index#1":             "guarded by 0 < kpos <= len(matchersNames) in the if just above",
 	"(*core.Selection).matchKeyword:index#2":             "kpos is wrapped into [1, len(matchersNames)] and the loop runs while done(kpos)",
@@ -466,7 +466,6 @@ var reviewedBounds = map[string]string{
 	"(*readline.Shell).keywordSwitch:slice#2":            "same",
 	"(*readline.Shell).magicSpace:slice#0":               "word starts with \"!\" (non-empty), so Pop returned a real selection: 0 <= bpos < Len",
 	"(*readline.Shell).quoteLine:index#3":                "pos is the range index of *rl.line and the loop does not change the line's length",
-	"(*readline.Shell).shellBackwardKillWord:slice#1":    "the cursor is moved back from startPos onto the word that ends there and then to its first non-blank: bpos <= startPos (exercised by the triage sweep, DESIGN.md §13)",
 	"(*readline.Shell).viChangeTo:index#0":               "Selection.Surrounds() returned the two surround selections MarkSurround creates together (IsSurround branch)",
 	"(*readline.Shell).viChangeTo:index#1":               "same",
 	"(*readline.Shell).viChangeTo:index#2":               "positions of the active one-rune surround selections created on valid positions of this line",
